@@ -13,8 +13,21 @@
    which box payloads carry their sub-transactions.  "addr" lines are the Lemo text form of an
    address.  A line is consumed only if it shows what Class(typ) demands; the named deviations are
    available only when listed in known_findings.txt (AllowedDev) and only for a line that the
-   correct disjunct rejects. *)
-EXTENDS CodecShapes, TraceBase
+   correct disjunct rejects.
+
+   Part 3 (CodecShapesSlots.tla) lines come in chunks.  A "reset" line carries the encoding b0 of one
+   honest instance (typ, sub = change-log type / message name, inst, var); it is decoded once with
+   Rlp!Decode and must be accepted by the type's descriptor.  A "slot" line is that encoding with the
+   item at `path` replaced by the primitive encoding class `off`: b is the offered string, acc / err
+   what the REAL typed decoder said, b1 the re-encoding of what it built.  The line is consumed when
+   b is the string the class stands for, acc = Acc(descriptor, Decode(b)) and b1 = b.  A "num" line is
+   the boundary value `val` put into the numeric field (path, jp, w): b the RLP form offered, ra / rb /
+   rh / rs the real decoder's verdict, re-encoding, hash, signers; jt the decimal text put into the
+   JSON member, ja / jb / jh / jsg / jt1 the same observations of the JSON form (jb = the RLP
+   encoding of the object decoded from JSON, jt1 = the member as that object writes it again); xa /
+   xh a transaction's trip through a box payload.  The three typed-decoder deviations are consumed
+   only when the real result is exactly what Acc / Canon with that deviation predict. *)
+EXTENDS CodecShapesSlots, TraceBase
 CONSTANT AllowedDev
 
 InUniverse(e)  == e.typ \in Types /\ e.sh \in Shapes(e.typ)
@@ -59,6 +72,67 @@ TDevUtf8 ==
   /\ OuterOK(E) /\ E.j = "ok"
   /\ UseDev("Dev_JsonManglesInvalidUtf8")
 
-TraceNext == TShape \/ TAddr \/ TReg \/ TDevUntyped \/ TDevStale \/ TDevUtf8
+(* ---- part 3: typed-decoder canonicity (slot lines) and numeric boundary values (num lines) ---- *)
+\* the facts of the real code the descriptors rest on
+TSlotReg == /\ Ev("slotreg")
+            /\ {<<p[1], p[2]>> : p \in ToSet(E.logNums)} = {<<t, LogNum(t)>> : t \in LogTypes}
+            /\ E.emptyTrie = EmptyTrieHash /\ E.hashLen = 32 /\ E.addrLen = 20
+
+\* a "reset" line opens a chunk: one honest instance, built and encoded by the real code.  Its encoding must be one the
+\* specification's typed decoder accepts (the field layouts of CodecShapesSlots are the real ones); it is decoded once and
+\* kept in TLC register 3 for the slot / num lines of the chunk.
+SubsOf(typ) == IF typ = "log" THEN LogTypes ELSE IF typ = "msg" THEN MsgNames ELSE {"-"}
+JsonOnly    == {"issueAsset", "replenishAsset", "transferAsset"}
+ASSUME TLCSet(3, [typ |-> "", sub |-> "", inst |-> "", var |-> -1, H |-> Err])
+Cur == TLCGet(3)
+TInst == /\ Ev("reset")
+         /\ E.typ \in SlotTypes \cup NumTypes /\ E.sub \in SubsOf(E.typ) /\ E.inst \in Insts
+         /\ LET H == IF E.typ \in JsonOnly THEN Err ELSE Decode(E.b0) IN
+              /\ (E.typ \notin JsonOnly => ~IsErr(H) /\ Acc(TopDesc(E.typ, E.sub), H, {}))
+              /\ TLCSet(3, [typ |-> E.typ, sub |-> E.sub, inst |-> E.inst, var |-> E.var, H |-> H])
+OfCur(e) == Cur.typ = e.typ /\ Cur.sub = e.sub /\ Cur.inst = e.inst /\ Cur.var = e.var
+
+SlotIn(e)   == e.typ \in SlotTypes /\ e.sub \in SubsOf(e.typ) /\ e.off \in Offers /\ OfCur(e)
+\* the harness offered exactly the string the class stands for
+SlotInput(e) == /\ SlotIn(e)
+                /\ Resolves(Cur.H, e.path)
+                /\ e.b = SlotBytes(Cur.H, PosDesc(e.typ, e.sub), e.path, e.off)
+\* what the real typed decoder did with it under the deviations D: it accepts exactly the encodings of values of the type,
+\* and what it accepted re-encodes to Canon - with D = {} that is the offered string itself
+SlotVerdict(e, D) ==
+  LET v   == Decode(e.b)
+      acc == ~IsErr(v) /\ Acc(TopDesc(e.typ, e.sub), v, D) IN
+    /\ e.acc = acc
+    /\ (acc => e.re = "ok" /\ e.b1 = Encode(Canon(TopDesc(e.typ, e.sub), v, D)))
+SlotOK(e) == SlotInput(e) /\ SlotVerdict(e, {}) /\ (e.acc => e.b1 = e.b)
+TSlot == Ev("slot") /\ SlotOK(E)
+\* named deviations of the typed decoders: the line is accepted only with the key listed, only when the correct verdict does
+\* not match, and only when the real result is exactly what the deviation's model predicts
+TDevSlot(k) == /\ Ev("slot") /\ ~SlotOK(E) /\ k \in AllowedDev
+               /\ SlotInput(E) /\ SlotVerdict(E, {k})
+               /\ UseDev(k)
+
+NumIn(e)  == /\ e.typ \in NumTypes /\ e.sub \in SubsOf(e.typ) /\ e.val \in NumVals /\ OfCur(e)
+             /\ NF(e.path, e.jp, e.w) \in NumFields(e.typ, e.sub)
+NumRlp(e) == LET be   == NumOf(e.val).be
+                 bs   == EncWith(Cur.H, e.path, Encode(Str(be)))
+                 fits == Fits(e.val, e.w) IN
+               /\ e.b = bs                                                  \* the canonical integer in the field's position
+               /\ e.ra = (IF fits THEN "ok" ELSE "err")                      \* accepted exactly when the value fits the field
+               /\ (fits => e.re = "ok" /\ e.rb = bs)                        \* and written back as the same bytes
+NumJson(e) == LET fits == Fits(e.val, e.w) IN
+               /\ e.jt = NumOf(e.val).dec                                    \* the decimal text in the field's member
+               /\ e.ja = (IF fits THEN "ok" ELSE "err")
+               /\ (fits => e.jt1 = NumOf(e.val).dec)                         \* and written back as the same text
+\* both forms yield the same object: same encoding, same hash, same recovered signers; for a transaction the form
+\* inside a box payload too
+NumBoth(e) == (e.path # <<>> /\ e.jp # <<>> /\ Fits(e.val, e.w)) =>
+                 /\ e.jre = "ok" /\ e.jb = e.rb /\ e.jh = e.rh /\ e.jsg = e.rs
+                 /\ (e.typ = "tx" => e.xa = "ok" /\ e.xh = e.rh)
+NumOK(e) == NumIn(e) /\ (e.path # <<>> => NumRlp(e)) /\ (e.jp # <<>> => NumJson(e)) /\ NumBoth(e)
+TNum == Ev("num") /\ NumOK(E)
+
+TraceNext == \/ TShape \/ TAddr \/ TReg \/ TDevUntyped \/ TDevStale \/ TDevUtf8
+             \/ TSlotReg \/ TInst \/ TSlot \/ TNum \/ \E k \in SlotDevs : TDevSlot(k)
 TraceSpec == l = 1 /\ [][TraceNext]_l
 ====
